@@ -134,6 +134,7 @@ class Monitors:
         self.frag = {}                    # C15: slot -> (seq, frag, last_seen, assembled bytes by frag)
         self.cfloor = {}                  # slot -> length of `answered` when the answer cache was last emptied (accepted N)
         self.answered = {}                # C16: slot -> list of (lname, type, name, payload, kind) fresh answers in order
+        self.byid = {}                    # (slot, dns id) -> (name, type) of received ping/data queries, to recognise what a slot holds
         self.offered = {}                 # slot -> list of compressed images offered for it (tun frames, forwards)
         self.stats = {"ans": 0, "data_ans": 0, "redelivered": 0, "replays_checked": 0, "foreign": 0, "tun_routed": 0,
                       "privileged": 0, "expired_refused": 0, "vack": 0, "frag_checked": 0}
@@ -387,6 +388,17 @@ class Monitors:
             bound_ok = (not cfg["check_ip"]) or (p["host"] != "none" and q.host == host_of(p["host"]))
             live = p["au"] == "1" and int(p["lp"]) + 60 >= now and p["conn"] == "1"
             if bound_ok and live and q.id != 0:
+                # (c) a duplicate of a query the server is still holding (exact name and type; `q` only counts in lazy mode)
+                heldq = []
+                for fld in ("q", "qs"):
+                    hid = int(p[fld].split("/")[0])
+                    if hid and (fld == "qs" or p["lazy"] == "1") and (u, hid) in self.byid:
+                        heldq.append(self.byid[(u, hid)])
+                cache0 = old[max(self.cfloor.get(u, 0), len(old) - 4):]
+                if (q.name, q.type) in heldq and not any(h[2] == q.name and h[1] == q.type for h in cache0):
+                    self.stats["redelivered"] += 1
+                    if hans or tunws:
+                        self.bad("C16", "repeat of a query session %d is still holding was processed again (handler answered %d queries, %d tun writes)" % (u, len(hans), len(tunws)))
                 cache = old[max(self.cfloor.get(u, 0), len(old) - 4):]
                 in_cache = any(h[2] == q.name and h[1] == q.type for h in cache)
                 if q.cmd == "D":
@@ -412,6 +424,8 @@ class Monitors:
                         if not mine:
                             self.bad("C16", "repeat of a cached query of session %d was not answered from the cache" % u)
 
+        if q is not None and q.cmd in ("p", "D") and q.user is not None and q.id != 0:
+            self.byid[(q.user, q.id)] = (q.name, q.type)
         tr.prev = dict(slots)
 
     def _reallocated(self, u, anss):
